@@ -503,3 +503,17 @@ package st
 //@   opt: channels=quiet
 //@   requires g != nil
 //@   modifies *
+//@ func ForgetOnce
+//@   props: S01
+//@   level: PA
+//@   nosafe
+//@   opt: only=max-deletes
+//@   opt: max-deletes=pending:1
+//@   modifies *
+//@ func ForgetTwice
+//@   props: S01
+//@   level: PA
+//@   nosafe
+//@   opt: only=max-deletes
+//@   opt: max-deletes=pending:1
+//@   modifies *
